@@ -64,6 +64,18 @@ MODELS['errlit'] = dict(
     formulas={S('B1'): lambda v: v[S('A1')] * 3, S('B2'): lambda v: v[S('A1')], S('B3'): lambda v: v[S('A1')] + 1},
     names={}, skip=('C04', 'C13'),
 )
+MODELS['lookalikes'] = dict(
+    # constants that compare equal but are different values (1, TRUE, "1", 1.0; 0, FALSE): the type code of each must not depend on
+    # which of the others was read before (type code: 1 number, 100 text, 0 logical)
+    make=lambda: mk({'A1': 1, 'A2': True, 'A3': '1', 'A5': 0, 'A6': False, 'A4': 5,
+                     'B1': '=IF(ISNUMBER(A1),1,0)+IF(ISTEXT(A1),100,0)+A4', 'B2': '=IF(ISNUMBER(A2),1,0)+IF(ISTEXT(A2),100,0)+A4',
+                     'B3': '=IF(ISNUMBER(A3),1,0)+IF(ISTEXT(A3),100,0)+A4', 'B5': '=IF(ISNUMBER(A5),1,0)+IF(ISTEXT(A5),100,0)+A4',
+                     'B6': '=IF(ISNUMBER(A6),1,0)+IF(ISTEXT(A6),100,0)+A4'}),
+    inputs=[S('A4')],
+    formulas={S('B1'): lambda v: 1 + v[S('A4')], S('B2'): lambda v: v[S('A4')], S('B3'): lambda v: 100 + v[S('A4')],
+              S('B5'): lambda v: 1 + v[S('A4')], S('B6'): lambda v: v[S('A4')]},
+    names={}, skip=('C04', 'C13'),
+)
 MODELS['twins'] = dict(
     # the same unqualified formula text on two sheets over different data
     make=lambda: mk_sheets({'Jan!A1': 1, 'Feb!A1': 10, 'Jan!A2': 2, 'Feb!A2': 20, 'Jan!B1': '=A1*2', 'Feb!B1': '=A1*2', 'Jan!B2': '=SUM(A1:A2)', 'Feb!B2': '=SUM(A1:A2)'}, default='Jan'),
